@@ -59,6 +59,32 @@ use write_path::{
 };
 
 const UNLABELED_LABEL_ID: LabelId = LabelId::MAX;
+
+/// Creates a node under a fresh external id. The starting candidate is derived from the
+/// wall clock, which may stall, be coarse or step backwards between statements; instead
+/// of failing when the candidate was handed out before, probe upwards for a free id.
+fn create_node_with_fresh_external_id(
+    txn: &mut dyn WriteableGraph,
+    candidate: ExternalId,
+    label_id: LabelId,
+) -> Result<InternalNodeId> {
+    const MAX_PROBES: u32 = 1 << 20;
+    let mut candidate = candidate.max(1);
+    for _ in 0..MAX_PROBES {
+        match txn.create_node(candidate, label_id) {
+            Err(Error::Other(msg))
+                if msg.contains("external id already exists")
+                    || msg.contains("duplicate external id") =>
+            {
+                candidate = candidate.wrapping_add(1).max(1);
+            }
+            other => return other,
+        }
+    }
+    Err(Error::Other(
+        "could not allocate a free external id".to_string(),
+    ))
+}
 pub use core_types::{NodeValue, PathValue, ReifiedPathValue, RelationshipValue, Row, Value};
 pub use plan_types::{Plan, PlanIterator};
 pub use procedure_registry::{
